@@ -1,4 +1,32 @@
-From TxV Require Import Core.Base Model.Resolve.
-Example C08_placeholder : insert_pos 2 7 [(1,5);(3,6)] = [(1,5);(2,7);(3,6)].
-Proof. reflexivity. Qed.
-Print Assumptions C08_placeholder.
+(* C08 — reference lists keep the textual order of the references. *)
+From Coq Require Import Sorting.Sorted.
+From TxV Require Import Core.Base Model.Resolve Proofs.ResolveProofs.
+
+(* For EVERY scope provider — any function of the reference and of the whole load history,
+   hence every postponement schedule — and every distribution of the references over
+   models: if the load succeeds, each list attribute (slot) holds exactly the targets of
+   its references, in the order of the positions of the reference texts, and every
+   reference is resolved.  Hypotheses: reference identities are unique and the references
+   of one list attribute are collected in increasing text position (what the parser does). *)
+Theorem C08_order : forall (ans : provider) models st,
+  NoDup (map xid (concat models)) ->
+  (forall s, StronglySorted lt (map xpos (filter (inslot s) (concat models)))) ->
+  load ans models = Ok st ->
+  (forall x, In x (concat models) -> tgt st (xid x) <> None) /\
+  (forall s, lists st s = map (entry st) (filter (inslot s) (concat models))).
+Proof. exact order_preserved. Qed.
+Print Assumptions C08_order.
+
+(* non-vacuity: list a,b,c with a postponed twice and c once, kept alive by two scalars *)
+Definition mk i s m p := {| xid := i; xslot := s; xmany := m; xpos := p; xtgt := 10 + i; xdeps := []; xnever := false |}.
+Definition demo_models := [[mk 0 0 true 0; mk 1 0 true 1; mk 2 0 true 2;
+                            {| xid := 3; xslot := 1; xmany := false; xpos := 3; xtgt := 13; xdeps := [4]; xnever := false |};
+                            mk 4 2 false 4]].
+Definition demo_delay (i : nat) := match i with 0 => 2 | 2 => 1 | _ => 0 end.
+Example C08_nonvacuous :
+  match load (table_ans demo_delay) demo_models with
+  | Ok st => lists st 0 = [(0, 10); (1, 11); (2, 12)] /\ rev (log st) = [0;1;2;3;4; 0;2;3; 0]
+  | _ => False
+  end.
+Proof. vm_compute. split; reflexivity. Qed.
+Print Assumptions C08_nonvacuous.
